@@ -12,7 +12,7 @@ import z3
 from pyvc import values as V, engine as E, interp as I, ops, vc
 from pyvc.runner import Unit
 from pyvc.values import SObj, SInt
-from checks import common, e1, e2, k6family
+from checks import common, e1, e2, k6family, regions
 
 TRUSTED_BASE = common.TRUSTED_BASE
 ASSUMPTIONS = common.ASSUMPTIONS + [
@@ -21,7 +21,7 @@ ASSUMPTIONS = common.ASSUMPTIONS + [
 ]
 UNCOVERED = [
     'binary packet layer: the compose direction is covered (packet units: payload an arbitrary byte string); the round trip of whole SSH records (parse of the message variants incl. KEXINIT) exceeds the exploration budget',
-    'KEXINIT is covered at the message level only (field order and framing with the name-lists used through their class contracts; K5 re-serialisation); DH (group) exchange REPLY messages (host key inside), the parse direction of DISCONNECT (utf-8 text), banner grammar (text layer), X.509 chains: K6 not stated; OpenSSH certificates: K6 of the parameter block only (checks/sshcert.py: compose direction, nested structures through their class contracts); K3 of the certificate classes is in the thorough tier of C01',
+    'KEXINIT is covered at the message level only (field order and framing with the name-lists used through their class contracts; K5 re-serialisation); the parse direction of DISCONNECT (utf-8 text), banner grammar (text layer), X.509 chains: K6 not stated; OpenSSH certificates: K6 of the parameter block only (checks/sshcert.py: compose direction, nested structures through their class contracts); K3 of the certificate classes is in the thorough tier of C01',
     'the parse direction of the host key blobs (external PublicKey objects)',
 ]
 BOUNDED = ['name-lists with at most 1 name in the symbolic vector objects (the names themselves are unbounded text)']
@@ -30,6 +30,10 @@ MESSAGES = ('SshDHKeyExchangeInit', 'SshDHGroupExchangeInit', 'SshDHGroupExchang
             'SshUnimplementedMessage', 'SshKexAlgorithmVector', 'SshHostKeyAlgorithmVector', 'SshEncryptionAlgorithmVector',
             'SshMacAlgorithmVector', 'SshCompressionAlgorithmVector')
 
+
+CERT_ELEMENTS = ('SshString', 'SshCertExtensionUnparsed', 'SshCertExtensionPermitX11Forwarding', 'SshCertExtensionPermitAgentForwarding',
+                 'SshCertExtensionPermitPortForwarding', 'SshCertExtensionPermitPTY', 'SshCertExtensionPermitUserRC',
+                 'SshCertExtensionForceCommand')
 
 # ------------------------------------------------------------------------------------------------- mpint abstraction
 def MP(P, v):
@@ -347,8 +351,14 @@ def _units_body(tier, seed):
     from checks import kexinit
     out.append(kexinit.k6_unit())
     out.append(kexinit.k5_unit())
-    from checks import sshcert
+    from checks import sshcert, sshreply
     out += sshcert.units()
+    out += sshreply.units()
+    # elements of an OpenSSH certificate (PROTOCOL.certkeys): principal strings, flag options, unparsed options, force-command
+    for n in CERT_ELEMENTS:
+        c = by_name[n]
+        out.append(Unit('K6/%s' % common.class_key(c), e2.clause_unit(c, ('K6', 'K3')), replay=k6family.replay_for(c), clause='K6+K3',
+                        functions=['%s.compose' % n, '%s._parse' % n, 'spec.ssh PROTOCOL.certkeys']))
     from checks import tables as _tables
     _table_units = _tables.units(_tables.SSH)
     return out + foundation.units(tier, seed) + _table_units
@@ -360,4 +370,4 @@ def units(tier, seed):
     return list(_units_body(tier, seed)) + [canary.padding_five()]
 
 
-FINDING_REPLAYS = {}
+FINDING_REPLAYS = regions.finding_replays('C07')
